@@ -53,6 +53,9 @@ impl Timings for MockRadio {
 
 // ---- MAC contract-stubs (ghost: which MAC entry points ran)
 pub(crate) struct MacLog { pub send: u8, pub join: u8, pub handle_rx: u8, pub rx2_complete: u8, pub resp: u8 }
+/// 0: any response kind; 1: the kinds a JOINED session produces (contracts of Session::handle_rx / rx2_complete);
+/// 2: the kinds an OTAA attempt produces (Otaa::handle_rx / rx2_complete)
+pub(crate) static mut MAC_MODE: u8 = 0;
 pub(crate) static mut ML: MacLog = MacLog { send: 0, join: 0, handle_rx: 0, rx2_complete: 0, resp: 0 };
 fn any_rf() -> radio::RfConfig {
     radio::RfConfig { frequency: tape::u32(), bb: radio::BaseBandModulationParams::new(lora_modulation::SpreadingFactor::_7, lora_modulation::Bandwidth::_125KHz, lora_modulation::CodingRate::_4_5), max_payload_len: tape::u8() }
@@ -73,10 +76,20 @@ fn any_mac_response(k: u8) -> mac::Response {
         4 => mac::Response::NoJoinAccept, 5 => mac::Response::JoinSuccess, _ => mac::Response::RxComplete }
 }
 pub(crate) fn stub_mac_handle_rx<const N: usize, const D: usize>(_m: &mut Mac, _b: &mut RadioBuffer<N>, _dl: &mut Vec<Downlink, D>, _snr: i8, _rf: &radio::RfConfig) -> mac::Response {
-    unsafe { ML.handle_rx += 1; ML.resp = tape::stub_u8() % 7; any_mac_response(ML.resp) }
+    unsafe {
+        ML.handle_rx += 1;
+        let k = tape::stub_u8() % 7;
+        ML.resp = match MAC_MODE { 1 => [0u8, 1, 2, 3, 6, 0, 3][k as usize], 2 => [0u8, 5, 0, 5, 0, 5, 0][k as usize], _ => k };
+        any_mac_response(ML.resp)
+    }
 }
 pub(crate) fn stub_mac_rx2_complete(_m: &mut Mac) -> mac::Response {
-    unsafe { ML.rx2_complete += 1; ML.resp = 1 + tape::stub_u8() % 6; any_mac_response(ML.resp) }   // never NoUpdate for a joined/joining device
+    unsafe {
+        ML.rx2_complete += 1;
+        let k = 1 + tape::stub_u8() % 6;   // never NoUpdate for a joined/joining device
+        ML.resp = match MAC_MODE { 1 => [1u8, 1, 2, 6, 6, 2, 1][k as usize], 2 => 4, _ => k };
+        any_mac_response(ML.resp)
+    }
 }
 
 fn any_frame() -> Frame { if tape::boolean() { Frame::Join } else { Frame::Data } }
